@@ -3,7 +3,7 @@
 
     python3 gen/C13_gen.py <part>[+<part>] --out <builddir> --seed N --tier quick|thorough
 
-(parts: cm64 cm32 cmld int8 num8 w1632 w64 cstr wstr scen) writes <builddir>/C13_gen_<part>[_<part>].hpp: constexpr argument tables (bit patterns) and the list of
+(parts: cm64 cm32 cmld int8 num8 w1632 w64 cstr wstr scen cont) writes <builddir>/C13_gen_<part>[_<part>].hpp: constexpr argument tables (bit patterns) and the list of
 (function, table) instantiations `C13_OBLIGATIONS(X)` that props/C13_cteval.cpp (compiled with -DC13_PART_<PART>)
 turns into  (a) constexpr result tables computed by the compiler, each block wrapped in the non-fatal
 constant-expression probe, and (b) run-time calls on the same arguments laundered through volatile.
@@ -304,8 +304,35 @@ def scen_tables(rng, tier):
 
 
 # ------------------------------------------------------------------------------------------ parts
+def lerp_table(t, rng, tier):
+    big = tier == 'thorough'
+    mx = t.val(t.max)
+    ends = []
+    for x in (mx, 0.75 * mx, 0.5 * mx, t.val(t.pow2(t.bias - 1) + 1), 1e30, 3.0, 1.0, 0.1, t.val(t.minnorm), t.val(1)):
+        ends += t.both(t.of(x))
+    ends += [0, t.sign]
+    ts = [t.of(x) for x in (0.0, 1.0, 0.5, 0.25, 0.75, 0.1)] + [t.sign, 1, t.pow2(0) - 1, t.pow2(-1) + 1, t.of(2.0), t.of(-1.0), t.of(1.5), t.of(1e6)]
+    rows = [(a, b, c) for a in ends for b in ends for c in ts]
+    rr = float_random(t, rng, 3 * (1000 if big else 200))
+    for i in range(len(rr) // 3):
+        rows.append((rr[3 * i], rr[3 * i + 1], t.of(rng.random())))
+        rows.append((rr[3 * i], rr[3 * i + 1], rr[3 * i + 2]))
+    return uniq(rows)
+
+
+def huge_pairs(t):
+    """argument pairs whose naive intermediate (a + b, b - a) overflows although the exact result is finite"""
+    mx = t.val(t.max)
+    hs = []
+    for x in (mx, 0.75 * mx, 0.5 * mx, t.val(t.pow2(t.bias - 1) + 1), t.val(t.max - 1)):
+        hs += t.both(t.of(x))
+    small = [0, t.sign, t.of(1.0), t.of(-1.0), 1, t.minnorm, t.of(3.0)]
+    return [(a, b) for a in hs for b in hs] + [(a, b) for a in hs for b in small] + [(b, a) for a in hs for b in small]
+
+
 def cmath_part(t, sfx, tables, L):
     t1, t2, t3 = tables
+    t2 = uniq(t2 + huge_pairs(t))
     L.table('t1_' + sfx, t1)
     L.table('t2_' + sfx, t2)
     L.table('t3_' + sfx, t3)
@@ -314,6 +341,8 @@ def cmath_part(t, sfx, tables, L):
     for f in ('copysign', 'fmin', 'fmax', 'fdim', 'fmod', 'remainder', 'nextafter', 'midpoint'):
         L.ob(f + '_' + sfx, f + '.' + sfx, 't2_' + sfx)
     L.ob('fma_' + sfx, 'fma.' + sfx, 't3_' + sfx)
+    L.table('tl_' + sfx, L.lerp)
+    L.ob('lerp_' + sfx, 'lerp.' + sfx, 'tl_' + sfx)
 
 
 class Listing:
@@ -420,9 +449,13 @@ def build(parts, seed, tier, pinned):
 def build_part(L, part, seed, tier):
     rng = random.Random('C13/%s/%d' % (part, seed))      # the tier changes table sizes, not the stream's seed
     if part == 'cm64':
-        cmath_part(F64, 'f64', float_tables(F64, rng, tier), L)
+        tabs = float_tables(F64, rng, tier)
+        L.lerp = lerp_table(F64, rng, tier)
+        cmath_part(F64, 'f64', tabs, L)
     elif part == 'cm32':
-        cmath_part(F32, 'f32', float_tables(F32, rng, tier), L)
+        tabs = float_tables(F32, rng, tier)
+        L.lerp = lerp_table(F32, rng, tier)
+        cmath_part(F32, 'f32', tabs, L)
     elif part == 'cmld':
         big = tier == 'thorough'
         hi = float_boundaries(F64) + float_random(F64, rng, 1000 if big else 200)
@@ -582,8 +615,17 @@ def build_part(L, part, seed, tier):
         L.table('sd', st)
         for f in ('scen_static_vector', 'scen_inplace_string', 'scen_string_view', 'scen_charconv', 'scen_algorithm', 'scen_chrono', 'scen_array_bitset',
                   'scen_ranges_i8', 'scen_ranges_u8', 'scen_ranges_i16', 'scen_ranges_u16', 'scen_ranges_i32', 'scen_ranges_u32', 'scen_ranges_i64',
-                  'scen_ranges_u64', 'scen_ranges_c16'):
+                  'scen_ranges_u64', 'scen_ranges_c16', 'scen_franges_f32', 'scen_franges_f64'):
             L.ob(f, f.replace('scen_', 'scenario.'), 'sd')
+    elif part == 'cont':
+        # containers at every fill up to full capacity x key below / at / between / above the elements (complete, both tiers)
+        L.table('mk', [(m, k) for m in range(16) for k in range(9)])
+        for n in (1, 2, 3, 4):
+            for c in ('flat_set_less', 'flat_set_void', 'flat_set_greater', 'static_set_less', 'static_set_void', 'static_set_greater'):
+                L.ob('%s_%d' % (c, n), '%s.cap%d' % (c.replace('_less', '.less').replace('_void', '.less_void').replace('_greater', '.greater'), n), 'mk')
+            L.ob('static_vector_%d' % n, 'static_vector.cap%d' % n, 'mk')
+            L.ob('inplace_string_%d' % n, 'inplace_string.cap%d' % n, 'mk')
+        L.ob('sorted_array', 'sorted_array', 'mk')
     else:
         raise SystemExit('unknown part ' + part)
 
